@@ -51,6 +51,13 @@ func runC01(e *core.Env) {
 		}
 		r := core.NewRand(e.Seed, 1, uint64(i))
 		doc := gen.Document(r, c01Opts(r))
+		if k := core.Hash64("c01-straddle", fmt.Sprint(e.Seed, i)) % 6000; k < 2 && i%2 == 0 {
+			// multi-byte characters across the offsets at which chunked readers cut (up to 1 MiB for k == 0)
+			t := straddleText(r, map[bool]int{true: 1048576, false: 131072}[k == 0])
+			if rec := ref.Recognise(t); rec.Verdict == ref.Conforming {
+				doc = &gen.Out{Text: t, Doc: rec.Doc, Feat: map[string]bool{"chunk_boundary_characters": true}}
+			}
+		}
 		if i%2 == 0 {
 			e.Begin(i, []byte(doc.Text))
 			c01Valid(e, r, doc)
@@ -140,16 +147,22 @@ func c01Valid(e *core.Env, r *core.Rand, doc *gen.Out) {
 	check("serial", parser.NewSerialParser())
 	n := r.Range(2, 9)
 	check(fmt.Sprintf("parallel(%d)", n), parser.NewParallelParser(n))
-	if core.Hash64("c01-stdin", doc.Text)%20 == 0 && doc.Text != "" && !strings.Contains(doc.Text, "\x00") { // (an empty pipe is no input at all)
+	if (core.Hash64("c01-stdin", doc.Text)%20 == 0 || doc.Feat["chunk_boundary_characters"]) && doc.Text != "" && !strings.Contains(doc.Text, "\x00") { // (an empty pipe is no input at all)
 		// the whole program: the same text piped into the real binary must be accepted and denote the same data
-		if recs, nerr, _, crash, ok := stdinJSON(e, doc.Text); ok {
-			w := map[string]any{"text": doc.Text, "how": "printf TEXT | klog json"}
+		how := "printf TEXT | klog json"
+		get := func() ([]any, int, bool, string, bool) { return stdinJSON(e, doc.Text) }
+		if len(doc.Text)%3 == 0 || doc.Feat["chunk_boundary_characters"] {
+			how = "klog json FILE"
+			get = func() ([]any, int, bool, string, bool) { return fileJSON(e, doc.Text) }
+		}
+		if recs, nerr, _, crash, ok := get(); ok {
+			w := map[string]any{"text": trunc(doc.Text, 4000), "how": how}
 			if crash != "" {
-				e.Violation("stdin-crash", "text on the standard input of the real binary: "+crash, w)
+				e.Violation("binary-crash", "real binary ("+how+"): "+crash, w)
 				return
 			}
 			if nerr > 0 {
-				e.Violation("conforming-text-rejected", fmt.Sprintf("real binary, text on standard input: a conforming text is rejected with %d errors", nerr), w)
+				e.Violation("conforming-text-rejected", fmt.Sprintf("real binary (%s): a conforming text is rejected with %d errors", how, nerr), w)
 				return
 			}
 			want := make([]expectedRec, len(doc.Doc.Recs))
@@ -157,7 +170,7 @@ func c01Valid(e *core.Env, r *core.Rand, doc *gen.Out) {
 				want[i] = expectedRec{Rec: &doc.Doc.Recs[i], ClosedEnd: -1}
 			}
 			if diff := compareJSONRecords(recs, want, true, utf8.ValidString(doc.Text)); diff != "" {
-				e.Violation("wrong-data-extracted", "real binary, text on standard input: "+diff, w)
+				e.Violation("wrong-data-extracted", "real binary ("+how+"): "+diff, w)
 				return
 			}
 			e.Count("conforming_documents_also_piped_into_the_binary", 1)
